@@ -1012,14 +1012,15 @@ def used_object(text, pf):
 REUSE_BASE = {"reuse_str": "str", "reused_text": "bytes", "reuse_list": "list", "reused_obj": "bytesio"}
 
 
-def c04_check(lines, contents, struct, alive=None, form="str", mutate=None, fault=None, reuse=None):
+def c04_check(lines, contents, struct, alive=None, form="str", mutate=None, fault=None, reuse=None, versions=None):
     """lines/contents: the concretized well-formed text; struct: the block structure TLC computed
     (which line is which block's header / change line / trailer); form: how the text is handed over;
     mutate (an int): afterwards the handed-out Version objects are edited in place and the same text is
     parsed again (another form) and must expose what is written.
     fault (a plan of changelog_faults): right before, a FAULTING input is parsed in this process -- never judged --
     by another object or (fault["same"]) by the object under test; reuse = {"pf": bool}: the object under test was
-    used before (Changelog.tla, Mode "reuse": rs.carry, rs.pf).  -> None or a message"""
+    used before (Changelog.tla, Mode "reuse": rs.carry, rs.pf).
+    versions: TLC's answers of ChangelogVersions.tla for the versions the headers were written with.  -> None or a message"""
     from debian.debian_support import Version
     text = join(lines)
     cl0 = None
@@ -1069,6 +1070,10 @@ def c04_check(lines, contents, struct, alive=None, form="str", mutate=None, faul
                 return "block %d: %s is %r, written %r" % (n, k, got[k], want[k])
         if not veq:
             return "block %d: version object differs from Version(%r)" % (n, h["ver"])
+    if versions is not None:        # which written version the blocks expose (ChangelogVersions.tla)
+        m = version_observables(cl, versions)
+        if m:
+            return m
     if mutate is not None:
         m = mutate_handouts(cl, mutate)
         if m:
@@ -1077,6 +1082,129 @@ def c04_check(lines, contents, struct, alive=None, form="str", mutate=None, faul
         if m:
             return "after Version objects handed out by an earlier parse of the same text were edited in place: " + m
     return None
+
+
+# ------------------------------------------------------------------ C04: which written version the blocks expose
+# (spec/ChangelogVersions.tla: eq[i][k] = block i exposes the k-th version of the family, lk[k] = the block found
+# under it, 0 = none -- TLC's answers; Python only asks the real object the same questions)
+
+VERSIONS_CFG = """CONSTANTS
+  HashOnString = FALSE
+  TildeOrderZero = FALSE
+  MaxBlocks = %d
+  Bug = "%s"
+  Emit = %s
+SPECIFICATION Spec
+INVARIANT InDom
+INVARIANT Identify
+INVARIANT PlainDistinct
+INVARIANT WrittenFound
+INVARIANT EmitCase
+INVARIANT EmitFam
+CHECK_DEADLOCK FALSE
+"""
+VERSIONS_NEG = ("prefixRuns", {"Identify", "PlainDistinct", "WrittenFound"})
+
+
+def versions_cfg(blocks=3, bug="none", emit=True):
+    return VERSIONS_CFG % (blocks, bug, "TRUE" if emit else "FALSE")
+
+
+def version_cases(r):
+    """CASE / FAM lines of ChangelogVersions -> [dict(ws=[version strings], keys=[version strings], eq, lk)]"""
+    fams = {f["fam"]: ["".join(chr(c) for c in k) for k in f["keys"]] for f in r.printed.get("FAM", []) if isinstance(f, dict)}
+    out = []
+    for c in r.printed.get("CASE", []):
+        keys = fams[c["fam"]]
+        out.append(dict(fam=c["fam"], ws=[keys[k - 1] for k in c["ws"]], keys=keys, eq=c["eq"], lk=c["lk"]))
+    out.sort(key=lambda c: (len(c["ws"]), c["fam"], c["ws"]))
+    return out
+
+
+def blocks_classes(rng, n):
+    """a sentence of the generator automaton of Changelog.tla with exactly n blocks"""
+    out = ["Blank"] * rng.choice([0, 0, 1, 2])
+    for _ in range(n):
+        out.append("TopOK")
+        out += [rng.choice(["Change", "Change", "Blank"]) for _ in range(rng.randint(0, 3))]
+        out += ["EndOK"] + ["Blank"] * rng.choice([0, 1, 1, 2])
+    return out
+
+
+def write_versions(lines, contents, versions):
+    """the k-th header of the concretized text is written with versions[k] (everything else stays)"""
+    lines, contents = list(lines), list(contents)
+    k = 0
+    for i, c in enumerate(contents):
+        if isinstance(c, dict) and "ver" in c:
+            contents[i] = dict(c, ver=versions[k])
+            lines[i] = top_text(contents[i])
+            k += 1
+    assert k == len(versions), (k, versions)
+    return lines, contents
+
+
+def version_observables(cl, vexp):
+    """ask the parsed changelog what TLC answered in vexp (eq, lk over vexp["keys"]) -> None or a message"""
+    from debian.debian_support import Version
+    blocks = list(cl)
+    ws, keys = vexp["ws"], vexp["keys"]
+    if len(blocks) != len(ws):
+        return "%d blocks parsed, %d written" % (len(blocks), len(ws))
+    try:
+        for i, b in enumerate(blocks):
+            if str(b.version) != ws[i]:
+                return "block %d: version is %r, written %r" % (i, str(b.version), ws[i])
+            for k, key in enumerate(keys):
+                want = vexp["eq"][i][k]
+                got = (b.version == Version(key), Version(key) == b.version, not (b.version != Version(key)))
+                if got != (want, want, want):
+                    return "block %d, written with the version %r, %s the version %r (==, reversed ==, not != answer %r; the versions written: %r)" % (
+                        i, ws[i], "does not expose" if want else "exposes", key, got, ws)
+        listed = [str(v) for v in cl.versions]
+        if listed != ws:
+            return "versions lists %r, written %r" % (listed, ws)
+    except Exception as e:
+        return "comparing the version of a block raised %s: %s" % (type(e).__name__, e)
+    for k, key in enumerate(keys):
+        want = vexp["lk"][k]
+        for how, arg in (("str", key), ("Version", Version(key))):
+            exc = "returned None"
+            try:
+                found = cl[arg]
+            except Exception as e:      # "no such version": which exception is not part of the statement
+                found = None
+                exc = "%s: %s" % (type(e).__name__, e)
+            at = next((j + 1 for j, b in enumerate(blocks) if b is found), 0) if found is not None else 0
+            if found is not None and at == 0:
+                return "changelog[%s %r] returned an object that is none of its blocks" % (how, key)
+            if at != want:
+                return "changelog[%s %r] %s, %s (the versions written: %r)" % (
+                    how, key, ("is block %d (written with %r)" % (at - 1, ws[at - 1])) if at else "finds no block (%s)" % exc,
+                    ("the first block written with it is block %d" % (want - 1)) if want else "no block was written with it", ws)
+        try:
+            has = Version(key) in cl.versions
+        except Exception as e:
+            return "Version(%r) in versions raised %s: %s" % (key, type(e).__name__, e)
+        if has != (want > 0):
+            return "Version(%r) in versions is %r (the versions written: %r)" % (key, has, ws)
+    return None
+
+
+def c04_versions_check(lines, contents, struct, vexp, form="str"):
+    """a concretized well-formed text whose headers carry the versions vexp["ws"]: the ordinary C04 verdict
+    (struct from TLC; None: strict + silent + round trip only) and the version observables -> None or a message"""
+    lines, contents = write_versions(lines, contents, vexp["ws"])
+    if struct is not None:
+        return c04_check(lines, contents, struct, form=form, versions=vexp)
+    text = join(lines)
+    cl, msg = strict_clean(text, False, form)
+    if msg:
+        return msg
+    s, err = fmt(cl)
+    if s != text:
+        return "str() differs from the text (input form %s): %r" % (form, s if s is not None else err)
+    return version_observables(cl, vexp)
 
 
 # ------------------------------------------------------------------ editing calls on the real object
